@@ -40,11 +40,8 @@ theorem pendKeyOf_restoreTarget (p : Packet) : pendKeyOf (restoreTarget p) = pen
   obtain ⟨_, b, c, d, e, f, _⟩ := restoreTarget_fields p
   exact pendKeyOf_congr b c d e f
 
-theorem pendKeyOf_finalizedRecord (p : Packet) (b : Bool) : pendKeyOf (finalizedRecord p b) = pendKeyOf p := by
-  unfold finalizedRecord
-  split
-  · exact (pendKeyOf_congr rfl rfl rfl rfl rfl).trans (pendKeyOf_restoreTarget p)
-  · exact pendKeyOf_congr rfl rfl rfl rfl rfl
+theorem pendKeyOf_finalizedRecord (p : Packet) (b : Bool) : pendKeyOf (finalizedRecord p b) = pendKeyOf p :=
+  pendKeyOf_congr rfl rfl rfl rfl rfl
 
 -- ------------------------------------------------------------------ the invariant
 
